@@ -775,6 +775,31 @@ func init() {
 	addMisuse("lockedrel", "Map.SetRelation(locked)", func(d *Drv, op *Op, h, aux ecs.Entity) {
 		d.Maps[op.Rem[0]].SetRelation(h, aux)
 	})
+	addMisuse("lockedrel", "Map.SetRelationBatch(locked)", func(d *Drv, op *Op, h, aux ecs.Entity) {
+		f := typed.NewFilter0(d.W, false)
+		f.With(comps(op.Rem[:1]))
+		d.Maps[op.Rem[0]].SetRelationBatch(f.Batch(nil), aux, nil)
+	})
+	addMisuse("lockedrel", "MapN.SetRelationsBatch(locked)", func(d *Drv, op *Op, h, aux ecs.Entity) {
+		for ti, t := range typed.Tuples {
+			if len(t.Comps) == 1 && t.Comps[0] == op.Rem[0] {
+				f := typed.NewFilter0(d.W, false)
+				f.With(comps(op.Rem[:1]))
+				d.TMap(ti).SetRelationsBatch(f.Batch(nil), func(ecs.Entity) {}, []ecs.Relation{ecs.RelIdx(0, aux)})
+				return
+			}
+		}
+		panic(skipMisuse{})
+	})
+	addMisuse("lockedrel", "MapN.SetRelations(locked)", func(d *Drv, op *Op, h, aux ecs.Entity) {
+		for ti, t := range typed.Tuples {
+			if len(t.Comps) == 1 && t.Comps[0] == op.Rem[0] {
+				d.TMap(ti).SetRelations(h, []ecs.Relation{ecs.RelIdx(0, aux)})
+				return
+			}
+		}
+		panic(skipMisuse{})
+	})
 }
 
 func mkrelStatic(cs []int) []int {
